@@ -278,13 +278,20 @@ class DirectoryRecord:
             self._printable_name = self.file_ident
 
         if self.parent is not None:
-            xa_rec = XARecord()
-            if xa_rec.parse(record[record_offset:], self.len_fi):
-                self.xa_record = xa_rec
-                record_offset += len(self.xa_record.record())
+            rr_signatures = (b'SP', b'RR', b'CE', b'PX', b'ER', b'ES', b'PN', b'SL', b'NM', b'CL', b'PL', b'TF', b'SF', b'RE', b'AL')
+
+            # An XA record always comes before the Rock Ridge entries.  If the
+            # system use area starts with a Rock Ridge entry there is no XA
+            # record, and we must not go looking for the XA signature in
+            # what is Rock Ridge data (a name, for instance).
+            if record[record_offset:record_offset + 2] not in rr_signatures:
+                xa_rec = XARecord()
+                if xa_rec.parse(record[record_offset:], self.len_fi):
+                    self.xa_record = xa_rec
+                    record_offset += len(self.xa_record.record())
 
             if len(record[record_offset:]) >= 2 and \
-               record[record_offset:record_offset + 2] in (b'SP', b'RR', b'CE', b'PX', b'ER', b'ES', b'PN', b'SL', b'NM', b'CL', b'PL', b'TF', b'SF', b'RE', b'AL'):
+               record[record_offset:record_offset + 2] in rr_signatures:
                 self.rock_ridge = rockridge.RockRidge()
 
                 is_first_dir_record_of_root = False
